@@ -5,7 +5,7 @@ import lib, storelib as S, arithlib as A
 from lib import Result, RMODES, OMODES, model_call, run_sharded, e_fmt, e_list, Reader
 
 RULE = ('operand format pairs with 2<=n_word<=12 and 0<=n_frac<=n_word-sign bit; sizing optimal/same/largest/smallest, raw and repr methods, all rounding x overflow modes on the governing configuration '
-        '(first operand, out, or out_like), explicit out objects and out_like templates of random formats, dyadic constants (int and float) on either side with op_input_size same/best, through operators and fxpmath.add/sub/mul; '
+        '(first operand, out, or out_like), explicit out objects and out_like templates of random formats (templates fresh, built with a value that does not fit, or used as a register before: the flags of the result are about the result), dyadic constants (int and float) on either side with op_input_size same/best, through operators and fxpmath.add/sub/mul; '
         'every code pair for words <=3, random codes otherwise; unary - + abs on every code of small formats. Compared: code, format, overflow/underflow flags, governing modes carried by the result, identity z is out; '
         'with the extracted Spec (exact result quantized) and the model (raw and repr). Non-trivial = the exact result is not representable in the target (rounding or overflow acts); distinct by full input.')
 ASSUMPTIONS = ['targets that would store a signed result into an unsigned out/out_like are not generated (the code rejects them with ValueError by design)',
@@ -40,6 +40,7 @@ def gen(rng, small=None):
             nwt = rng.randint(13, 52); t = (rng.random() < 0.6, nwt, min(36, rng.choice([0, nwt // 2, nwt - 1, nwt, nwt + 8, rng.randint(0, nwt + 8)])))   # (n_frac <= 36 keeps |exact result * 2^n_frac| < 2^62, C01's domain)
         if s_any and not t[0]: t = (True, max(t[1], 2), min(t[2], max(t[1], 2) - 1))
         c['t'] = list(t); c['rt'] = rng.choice(RMODES); c['ot'] = rng.choice(OMODES); c['route'] = 'func' if rng.random() < 0.7 else 'operator'
+        if c['target'] == 'out_like': c['tmpl_life'] = rng.choice(['fresh', 'big', 'used'])
     if small: c['cx'], c['cy'] = small[2], small[3]
     else:
         c['cx'] = A.interesting_codes(rng, fxm[0], fxm[1], 1)[0]; c['cy'] = A.interesting_codes(rng, fym[0], fym[1], 1)[0]
@@ -65,7 +66,13 @@ def run_impl(c, fx, np):
     y = A.mk(fx, np, *fym, c['cy'], rounding=c['ry'], overflow=c['oy'])
     out = out_like = None
     if c['target'] == 'out': out = fx.Fxp(None, *c['t'], rounding=c['rt'], overflow=c['ot'])
-    if c['target'] == 'out_like': out_like = fx.Fxp(None, *c['t'], rounding=c['rt'], overflow=c['ot'])
+    if c['target'] == 'out_like':
+        life = c.get('tmpl_life', 'fresh')
+        if life == 'fresh': out_like = fx.Fxp(None, *c['t'], rounding=c['rt'], overflow=c['ot'])
+        elif life == 'big':        # a template built with a value that does not fit: ITS flags are raised; the result's flags are about the result only
+            out_like = fx.Fxp(2.0 ** 58 + 0.3, *c['t'], rounding=c['rt'], overflow=c['ot'])
+        else:                      # a template used as a register before
+            out_like = fx.Fxp(None, *c['t'], rounding=c['rt'], overflow=c['ot']); out_like(-2.0 ** 58 - 0.3); out_like(0.0)
     info = {}
     if 'const' in c:
         fxp = x if c['const'] == 'y' else y          # the Fxp operand that drives the conversion
